@@ -70,6 +70,10 @@ func runC01(c *Ctx) {
 			pc := ref.W[0].Queue[0]
 			form := formOf(ref.Core[pc])
 			ref.RunCycle()
+			if m <= 4096 && r.Chance(1, 4) {
+				decoySim(sc, r) // a bystander simulator with other limits must not matter
+				c.Inc("steps_with_bystander_simulator")
+			}
 			if p, msg := try(func() { s.RunCycle() }); p {
 				c.Violate("C01:panic:"+panicSite(msg), msg, sc.describe())
 				return
